@@ -73,7 +73,7 @@ func GetValue(updValue *gnmi.TypedValue) (interface{}, error) {
 }
 
 func GetJsonValue(tv *sdcpb.TypedValue, ietf bool) (any, error) {
-	switch tv.Value.(type) {
+	switch tv.GetValue().(type) {
 	case *sdcpb.TypedValue_EmptyVal:
 		return map[string]any{}, nil
 	case *sdcpb.TypedValue_LeaflistVal:
@@ -469,7 +469,7 @@ func EqualTypedValues(v1, v2 *sdcpb.TypedValue) bool {
 }
 
 func TypedValueToString(tv *sdcpb.TypedValue) string {
-	switch tv.Value.(type) {
+	switch tv.GetValue().(type) {
 	case *sdcpb.TypedValue_AnyVal:
 		return string(tv.GetAnyVal().GetValue()) // questionable...
 	case *sdcpb.TypedValue_AsciiVal:
